@@ -365,8 +365,23 @@ def conditions_with_effects_cases():
             yield {"templates": {"base": base, "main": child}, "main": "main", "data": {}, "loader": "dict", "env": {"extra": True, "flags": {"ternary_expressions": True}}}
 
 
+def loop_argument_value_cases():
+    """Loop arguments (limit / offset / cols) given as variables, paths and filtered-in values of every type, among them the strings that
+    are keywords when written literally: both renderers read an argument's *value* the same way, in strict and tolerant mode."""
+    values = ["continue", "2", 2, 0, -1, None, "x", 1.5, True, False, [1], {"a": 1}, "", " 1 ", "reversed", "empty"]
+    shapes = ["{% for i in xs offset: A %}{{ i }}{% else %}e{% endfor %}", "{% for i in xs limit: A %}{{ i }}{% else %}e{% endfor %}", "{% for i in xs limit: 2 %}{{ i }}{% endfor %}|{% for i in xs offset: A %}{{ i }}{% endfor %}",
+              "{% for i in xs limit: 1 %}{{ i }}{% endfor %}|{% for i in xs limit: A offset: continue %}{{ i }}{% endfor %}", "{% tablerow i in xs offset: A %}{{ i }}{% endtablerow %}", "{% tablerow i in xs cols: A %}{{ i }}{% endtablerow %}",
+              "{% tablerow i in xs limit: A cols: 2 %}{{ i }}{% endtablerow %}", "{% for i in (1..6) offset: A reversed %}{{ i }}{% endfor %}"]
+    for vi, v in enumerate(values):
+        for shape in shapes:
+            for arg in ("start", "opts.paging.from", "opts['k']"):
+                for mode in ("strict", "lax"):
+                    yield {"templates": {"main": shape.replace("A", arg)}, "main": "main", "loader": "dict", "env": {"mode": mode},
+                           "data": {"xs": [1, 2, 3, 4, 5, 6], "start": v, "opts": {"paging": {"from": v}, "k": v}}}
+
+
 def cases(ctx: core.Ctx):
-    for c in itertools.chain(argument_scope_cases(), conditions_with_effects_cases()):
+    for c in itertools.chain(argument_scope_cases(), conditions_with_effects_cases(), loop_argument_value_cases()):
         c = dict(c)
         c["data"] = V.enc(c["data"])
         c.setdefault("ntags", 2)
